@@ -36,6 +36,22 @@ def _stmt_of(n):
     return n
 
 
+def _read_only_mapping_use(n):
+    """is the mapping produced by the node n (vars(x), x.__dict__) only looked at?  `.items() / .keys() / .values() / .get(k) / .copy()` called on it,
+    or the node handed to one of the reading builtins, iterated, or tested with `in`"""
+    par = getattr(n, '_parent', None)
+    if isinstance(par, ast.Attribute) and par.value is n and par.attr in ('items', 'keys', 'values', 'get', 'copy') and isinstance(getattr(par, '_parent', None), ast.Call) \
+            and par._parent.func is par:
+        return True
+    if isinstance(par, ast.Call) and n in par.args and isinstance(par.func, ast.Name) and par.func.id in ('sorted', 'list', 'tuple', 'dict', 'len', 'repr', 'str', 'set', 'frozenset', 'iter'):
+        return True
+    if isinstance(par, (ast.For, ast.comprehension)) and par.iter is n:
+        return True
+    if isinstance(par, ast.Compare) and n in par.comparators and all(isinstance(o, (ast.In, ast.NotIn)) for o in par.ops):
+        return True
+    return False
+
+
 class Effects:
     def __init__(self, repo):
         self.repo = repo
@@ -53,6 +69,8 @@ class Effects:
             for n in f.body_nodes():
                 if isinstance(n, ast.Call) and isinstance(n.func, ast.Name):
                     if n.func.id in ('setattr', 'delattr', 'exec', 'eval', 'vars', 'globals', 'locals'):
+                        if n.func.id == 'vars' and _read_only_mapping_use(n):
+                            continue        # vars(x).items() and the like: the attribute table is looked at (a __repr__), nothing is written through it
                         if self.repo.lookup(f.module, n.func.id) is None:
                             raise AnalysisError('dynamic construct %s() at %s defeats writer enumeration'
                                                 % (n.func.id, f.loc(n)))
@@ -60,7 +78,7 @@ class Effects:
                         raise AnalysisError('getattr with non-constant name at %s' % f.loc(n))
                 if isinstance(n, ast.Attribute) and n.attr == '__dict__':
                     inside_whitelisted = f.qual.startswith('core.util.generate_disseminator')
-                    if not inside_whitelisted:
+                    if not inside_whitelisted and not (isinstance(n.ctx, ast.Load) and _read_only_mapping_use(n)):
                         raise AnalysisError('__dict__ access at %s defeats writer enumeration' % f.loc(n))
                 if isinstance(n, ast.Call) and isinstance(n.func, ast.Attribute) and n.func.attr == '__init__':
                     v = n.func.value
@@ -287,6 +305,198 @@ def first_catcher(stack, exc):
     return None
 
 
+# ------------------------------------------------------------------------------------------------------------------------------
+# local discharge of raise sites: forms whose safety is visible in the function itself
+# ------------------------------------------------------------------------------------------------------------------------------
+_KEY_VIEWS = ('sorted', 'list', 'tuple', 'reversed', 'set', 'frozenset', 'iter')
+_REMOVERS = ('pop', 'popitem', 'clear')
+
+
+def _same(a, b):
+    return norm(a) == norm(b)
+
+
+def _keys_of(it, d):
+    """does iterating `it` yield keys of the dict expression `d`?  d, d.keys(), sorted(d), list(d.keys()), reversed(sorted(d)) .."""
+    if _same(it, d):
+        return True
+    if isinstance(it, ast.Call) and isinstance(it.func, ast.Attribute) and it.func.attr == 'keys' and not it.args and _same(it.func.value, d):
+        return True
+    if isinstance(it, ast.Call) and isinstance(it.func, ast.Name) and it.func.id in _KEY_VIEWS and len(it.args) >= 1:
+        return _keys_of(it.args[0], d)
+    return False
+
+
+def _removes_from(nodes, d):
+    for x in nodes:
+        if isinstance(x, ast.Delete):
+            for t in x.targets:
+                if isinstance(t, ast.Subscript) and _same(t.value, d):
+                    return True
+        if isinstance(x, ast.Call) and isinstance(x.func, ast.Attribute) and x.func.attr in _REMOVERS and _same(x.func.value, d):
+            return True
+        if isinstance(x, (ast.Assign, ast.AugAssign, ast.AnnAssign)):
+            for t in (x.targets if isinstance(x, ast.Assign) else [x.target]):
+                if _same(t, d):
+                    return True
+    return False
+
+
+def key_locally_ensured(f, sub):
+    """`D[k]` (load): k is the variable of an enclosing loop / comprehension over the keys of D, or the subscript sits under a test `k in D`
+    (if-body, conditional expression, right operand of `and`), and nothing in the function removes entries from D or rebinds it.
+    The reason as text, or None."""
+    d, k = sub.value, sub.slice
+    if not isinstance(k, ast.Name):
+        return None
+    if _removes_from(list(f.body_nodes()), d):
+        return None
+    n = sub
+    par = getattr(n, '_parent', None)
+    while par is not None and par is not f.node:
+        if isinstance(par, (ast.ListComp, ast.SetComp, ast.GeneratorExp, ast.DictComp)):
+            for g in par.generators:
+                if isinstance(g.target, ast.Name) and g.target.id == k.id and _keys_of(g.iter, d) and n is not g.iter:
+                    return 'the key iterates over the keys of %s' % norm(d)
+        if isinstance(par, ast.For) and isinstance(par.target, ast.Name) and par.target.id == k.id and _keys_of(par.iter, d) and n in par.body:
+            rebinds = [x for st in par.body for x in ast.walk(st) if isinstance(x, ast.Name) and x.id == k.id and isinstance(x.ctx, ast.Store)]
+            if not rebinds:
+                return 'the key iterates over the keys of %s' % norm(d)
+        test = None
+        if isinstance(par, ast.If) and n in par.body:
+            test = par.test
+        elif isinstance(par, ast.IfExp) and n is par.body:
+            test = par.test
+        elif isinstance(par, ast.BoolOp) and isinstance(par.op, ast.And) and n in par.values[1:]:
+            test = ast.BoolOp(op=ast.And(), values=par.values[:par.values.index(n)])
+        if test is not None:
+            conj = test.values if isinstance(test, ast.BoolOp) and isinstance(test.op, ast.And) else [test]
+            for c in conj:
+                if isinstance(c, ast.Compare) and len(c.ops) == 1 and isinstance(c.ops[0], ast.In) and _same(c.left, k) and _same(c.comparators[0], d):
+                    if isinstance(par, ast.If):
+                        idx = par.body.index(n) if n in par.body else 0
+                        upto = idx if isinstance(par.body[idx], (ast.Assign, ast.AnnAssign, ast.Expr, ast.Return)) else idx + 1    # (the right-hand side is evaluated before the store)
+                        before = [x for st in par.body[:upto] for x in ast.walk(st) if isinstance(x, ast.Name) and x.id == k.id and isinstance(x.ctx, ast.Store)]
+                        if before:
+                            break
+                    return 'under the test %s' % norm(c)
+        n = par
+        par = getattr(par, '_parent', None)
+    return None
+
+
+def _ann_alternatives(ann):
+    """the alternatives of an annotation as names: Optional[X] -> ['X', 'None'];  Union[A, B] -> ['A', 'B'];  X -> ['X'];  None when not understood"""
+    if ann is None:
+        return None
+    if isinstance(ann, ast.Constant):
+        if ann.value is None:
+            return ['None']
+        if isinstance(ann.value, str):
+            try:
+                return _ann_alternatives(ast.parse(ann.value, mode='eval').body)
+            except SyntaxError:
+                return None
+        return None
+    if isinstance(ann, ast.BinOp) and isinstance(ann.op, ast.BitOr):
+        l, r = _ann_alternatives(ann.left), _ann_alternatives(ann.right)
+        return None if l is None or r is None else l + r
+    if isinstance(ann, ast.Subscript):
+        head = norm(ann.value).split('.')[-1]
+        if head == 'Optional':
+            inner = _ann_alternatives(ann.slice)
+            return None if inner is None else inner + ['None']
+        if head == 'Union':
+            out = []
+            for e in (ann.slice.elts if isinstance(ann.slice, ast.Tuple) else [ann.slice]):
+                a = _ann_alternatives(e)
+                if a is None:
+                    return None
+                out += a
+            return out
+        return [{'List': 'list', 'Dict': 'dict', 'Tuple': 'tuple', 'Set': 'set', 'FrozenSet': 'frozenset', 'Type': 'type'}.get(head, head)]
+    if isinstance(ann, (ast.Name, ast.Attribute)):
+        nm = norm(ann).split('.')[-1]
+        return None if nm in ('Any', 'object') else [nm]
+    return None
+
+
+def assert_implied_by_annotations(repo, f, test):
+    """an `assert` that only re-states the annotations of the function's own parameters: a Boolean combination of `isinstance(p, C)`,
+    `p is None`, `p is not None` that is true for every alternative of each parameter's annotation (subclass relation by the repository's
+    class table; bool is an int).  Assumes the program is type-correct with respect to its annotations (the repository's test suite runs mypy).
+    The reason as text, or None."""
+    if f.is_module_body:
+        return None
+    anns = {a.arg: a.annotation for a in f.param_nodes()}
+    names = set()
+
+    def atoms(e):
+        if isinstance(e, ast.BoolOp):
+            return all(atoms(v) for v in e.values)
+        if isinstance(e, ast.UnaryOp) and isinstance(e.op, ast.Not):
+            return atoms(e.operand)
+        if isinstance(e, ast.Call) and isinstance(e.func, ast.Name) and e.func.id == 'isinstance' and len(e.args) == 2 and isinstance(e.args[0], ast.Name) and not e.keywords:
+            names.add(e.args[0].id)
+            return True
+        if isinstance(e, ast.Compare) and len(e.ops) == 1 and isinstance(e.ops[0], (ast.Is, ast.IsNot)) and isinstance(e.left, ast.Name) \
+                and isinstance(e.comparators[0], ast.Constant) and e.comparators[0].value is None:
+            names.add(e.left.id)
+            return True
+        return False
+    if not atoms(test) or not names:
+        return None
+    # the parameters must not be rebound before the assert (conservatively: anywhere in the function)
+    for x in f.body_nodes():
+        if isinstance(x, ast.Name) and x.id in names and isinstance(x.ctx, (ast.Store, ast.Del)):
+            return None
+    alts = {}
+    for nm in names:
+        a = _ann_alternatives(anns.get(nm))
+        if not a:
+            return None
+        alts[nm] = a
+
+    def is_sub(t, cexpr):
+        cs = cexpr.elts if isinstance(cexpr, ast.Tuple) else [cexpr]
+        for c in cs:
+            cn = norm(c).split('.')[-1]
+            if t == cn or (t == 'bool' and cn == 'int'):
+                return True
+            tc = [k for k in repo.classes.values() if k.name == t]
+            cc = [k for k in repo.classes.values() if k.name == cn]
+            if len(tc) == 1 and len(cc) == 1 and tc[0].is_subclass_of(cc[0]):
+                return True
+        return False
+
+    def ev(e, env):
+        if isinstance(e, ast.BoolOp):
+            vals = [ev(v, env) for v in e.values]
+            return all(vals) if isinstance(e.op, ast.And) else any(vals)
+        if isinstance(e, ast.UnaryOp):
+            return not ev(e.operand, env)
+        if isinstance(e, ast.Call):
+            t = env[e.args[0].id]
+            return t != 'None' and is_sub(t, e.args[1])
+        isnone = env[e.left.id] == 'None'
+        return isnone if isinstance(e.ops[0], ast.Is) else not isnone
+    import itertools
+    order = sorted(alts)
+    for combo in itertools.product(*[alts[n_] for n_ in order]):
+        if not ev(test, dict(zip(order, combo))):
+            return None
+    return 'restates the annotations of %s' % ', '.join(order)
+
+
+def locally_discharged(repo, f, node, exc):
+    """a raise site that cannot fire for a reason visible in its own function: the reason, or None"""
+    if exc == 'KeyError' and isinstance(node, ast.Subscript) and isinstance(node.ctx, ast.Load):
+        return key_locally_ensured(f, node)
+    if exc == 'AssertionError' and isinstance(node, ast.Assert):
+        return assert_implied_by_annotations(repo, f, node.test)
+    return None
+
+
 class Exceptions:
     """Explicit raises, asserts and a frozen table of partial built-ins; propagation over the RTA call graph."""
 
@@ -296,6 +506,7 @@ class Exceptions:
         self.implicit = implicit
         self.include_asserts = include_asserts
         self.sites = {}
+        self.discharged = []        # (func, node, exception, reason): sites whose safety is visible in their own function
         for f in repo.all_funcs():
             self.sites[f] = [] if is_abstract_marker(f) else self._scan(f)
         self._esc = None
@@ -319,6 +530,10 @@ class Exceptions:
                     e = n.exc.func if isinstance(n.exc, ast.Call) else n.exc
                     out.append(RaiseSite(f, n, norm(e).split('.')[-1], 'explicit', norm(n)[:120]))
             elif isinstance(n, ast.Assert) and self.include_asserts:
+                why = locally_discharged(repo, f, n, 'AssertionError')
+                if why is not None:
+                    self.discharged.append((f, n, 'AssertionError', why))
+                    continue
                 out.append(RaiseSite(f, n, 'AssertionError', 'assert', norm(n.test)[:120]))
             elif self.implicit and isinstance(n, ast.Call) and isinstance(n.func, ast.Name) \
                     and n.func.id in ('int', 'float') and len(n.args) >= 1 and repo.lookup(f.module, n.func.id) is None:
@@ -345,6 +560,10 @@ class Exceptions:
             elif self.implicit and isinstance(n, ast.Subscript) and isinstance(n.ctx, (ast.Load, ast.Del)):
                 bts = repo.expr_types(f, n.value)
                 if any(t[0] == 'dict' for t in bts):
+                    why = locally_discharged(repo, f, n, 'KeyError')
+                    if why is not None:
+                        self.discharged.append((f, n, 'KeyError', why))
+                        continue
                     out.append(RaiseSite(f, n, 'KeyError', 'implicit', norm(n)[:120]))
         return out
 
